@@ -192,7 +192,7 @@ def engine_s(tier, seed):
   """Called by vf.runner (plain interpreter): runs Engine S in the overlay venv."""
   env = dict(os.environ)
   env.pop('VERIF_NO_CROSSHAIR', None)
-  env['PYTHONPATH'] = ROOT + ':/repo'
+  env['PYTHONPATH'] = ROOT + ':' + os.environ.get('VERIF_REPO', '/repo')
   p = subprocess.run([os.path.join(ROOT, '.venv', 'bin', 'python'), '-c',
                       'import json,sys; from vf.harness import c18; '
                       'sys.stdout.write("@@ENGINE@@" + json.dumps(c18.engine_s_main(%r, %d), default=repr))'
